@@ -14,6 +14,8 @@ import (
 	"sync"
 	"sync/atomic"
 	"time"
+
+	"github.com/mattn/go-runewidth"
 )
 
 type verifInput struct {
@@ -186,7 +188,32 @@ func verifHelperOutput([]byte)             { verifNotNative("verifHelper") }
 func verifHelperState() int                { verifNotNative("verifHelper"); return 0 }
 func verifAbstractName(int) string         { verifNotNative("verifAbstractName"); return "" }
 func verifOpaqueASCII(int, int) string     { verifNotNative("verifOpaqueASCII"); return "" }
-func verifDisplayWidth(string) int         { verifNotNative("verifDisplayWidth"); return 0 }
+
+// verifDisplayWidth: display width of a rendered string, zero-width control sequences removed
+func verifDisplayWidth(s string) int {
+	var b []byte
+	esc := 0
+	for i := 0; i < len(s); i++ {
+		c := s[i]
+		switch {
+		case esc == 1:
+			if c == '[' {
+				esc = 2
+			} else {
+				esc = 0
+			}
+		case esc == 2:
+			if (c >= 'a' && c <= 'z') || (c >= 'A' && c <= 'Z') {
+				esc = 0
+			}
+		case c == 0x1b:
+			esc = 1
+		default:
+			b = append(b, c)
+		}
+	}
+	return runewidth.StringWidth(string(b))
+}
 
 // ---- sandbox file system
 
